@@ -459,7 +459,59 @@ def _s_badname(v):
     return d.hugr
 
 
+def _s_loadfn_poly(v):
+    """a polymorphic function loaded at a concrete instantiation, the loaded value used by a CallIndirect: the wire out
+    of the LoadFunction is labelled with the INSTANTIATED function type (seeded change C20-13: the label taken from the
+    polymorphic body)"""
+    from hugr import ops, tys
+    from hugr.build.function import Module
+
+    T = [tys.Qubit, tys.Bool, tys.USize(), tys.Tuple(tys.Bool, tys.Bool)][v % 4]
+    m = Module()
+    v0 = tys.Variable(0, tys.TypeBound.Any)
+    f = m.declare_function("id", tys.PolyFuncType([tys.TypeTypeParam(tys.TypeBound.Any)], tys.FunctionType([v0], [v0])))
+    main = m.define_function("main", [T], [T])
+    (x,) = main.inputs()
+    lf = main.load_function(f, tys.FunctionType([T], [T]), [T.type_arg()])
+    if v % 3 == 0:
+        with main.add_nested(x) as n:
+            ci = n.add_op(ops.CallIndirect(), lf, n.inputs()[0])
+            n.set_outputs(ci[0])
+        main.set_outputs(n[0])
+    else:
+        ci = main.add_op(ops.CallIndirect(), lf, x)
+        main.set_outputs(ci[0])
+    return m.hugr
+
+
+def _s_explicit_sig(v):
+    """an extension operation whose own signature does not list its extension among the requirements — given explicitly
+    (`ExtOp(op_def, signature)`) or as a document written elsewhere has it, loaded and resolved: drawing it, with
+    qualified names or without, leaves it as it is (seeded change C20-14: the requirement list extended in place by the
+    first look at the display name)"""
+    from hugr import ext, ops, tys
+    from hugr.build.dfg import Dfg
+    from hugr.hugr import Hugr
+
+    e = ext.Extension("verif.draw", ext.Version(0, 1, 0))
+    od = e.add_op_def(ext.OpDef("g", ext.OpDefSig(tys.FunctionType([tys.Bool], [tys.Bool])), description="d"))
+    d = Dfg(tys.Bool)
+    if v % 2 == 0:
+        n = d.add_op(ops.ExtOp(od, tys.FunctionType([tys.Bool], [tys.Bool])), d.inputs()[0])
+        d.set_outputs(n[0])
+        return d.hugr
+    n = d.add_op(ops.Custom("g", tys.FunctionType([tys.Bool], [tys.Bool]), extension="verif.draw"), d.inputs()[0])
+    d.set_outputs(n[0])
+    h = Hugr.load_json(d.hugr.to_json())
+    reg = ext.ExtensionRegistry()
+    reg.add_extension(e)
+    h.resolve_extensions(reg)
+    return h
+
+
 SCRIPTS = {
+    "loadfn_poly": _s_loadfn_poly,
+    "explicit_sig": _s_explicit_sig,
     "order_const": _s_order_const,
     "order_call": _s_order_call,
     "cfg": _s_cfg,
